@@ -314,6 +314,9 @@ def _hoist_constant_else(fn):
                                 first = st
                                 break
                         if first is None:
+                            # the then-branch does not bind the name at all: hoisting the else-binding in front of
+                            # the `if` would overwrite whatever the name held on the then-path
+                            ok = False
                             continue
                         if not (isinstance(first, ast.Assign) and any(isinstance(t, ast.Name) and t.id == nm for t in first.targets)
                                 and not any(isinstance(x, ast.Name) and x.id == nm for x in ast.walk(first.value))):
